@@ -202,6 +202,9 @@ func (b bset) union(o bset) bset {
 func (b bset) inter(o bset) bset {
 	return bset{b[0] & o[0], b[1] & o[1], b[2] & o[2], b[3] & o[3]}
 }
+func (b bset) subsetOf(o bset) bool {
+	return b[0]&^o[0] == 0 && b[1]&^o[1] == 0 && b[2]&^o[2] == 0 && b[3]&^o[3] == 0
+}
 func (b bset) complement() bset { return bset{^b[0], ^b[1], ^b[2], ^b[3]} }
 func fullBset() bset            { return bset{^uint64(0), ^uint64(0), ^uint64(0), ^uint64(0)} }
 
